@@ -137,8 +137,13 @@ BOUNDED = {
                       '(the string code - trim / join / replace / format! - that decides whether flattened parts equal a flattened key is outside Verus\' reach)'},
             {'name': 'iteration-variable-names', 'driver': 'feelcases', 'args': ['/verif/replay/cases/C10_iteration_names.txt', 'all'],
              'functions': ['Lexer::consume_name (the name before `in` in for / some / every)', 'Parser actions that register the variable'],
-             'bound': '7 for / some / every expressions over bound one- and two-word names whose body uses the `in` operator on names again (the variable ends before the FIRST `in`)'}],
+             'bound': '10 expressions: for / some / every over bound one- and two-word names whose body uses the `in` operator on names again (the variable ends before the FIRST `in`), and iteration variables spelled like an '
+                      'operator expression of bound names (a-b, a+b, a*b) followed by that expression outside the construct (the name ends with its construct)'}],
 }
+# C01: a filter / path over bound lists and contexts answers by the VALUES bound (entry names inside bound values resolve whatever the position
+# of the item that carries them): the same stand-in decides that clause
+BOUNDED['C01'] = [BOUNDED['C10'][0]]
+UNIT['lemma_props'] = sorted(set(UNIT.get('lemma_props', []) + ['C01']))   # the unit serves C01 through this stand-in only
 NOT_DECIDED = {'C10': ['flatten_name_parts, Name::new, FeelContext::flatten_keys are string code (trim, join, replace, format!): named by uninterpreted functions in the contract; their agreement is only checked by the bounded stand-in',
                        'names whose first word is `item` and names before `in` in iteration contexts follow the two tweaks spelled out in the contract (code-derived), not the longest-match rule',
                        'which grammar positions call consume_name (read_next_token) and how the parser uses the Name token; names ending in a symbol or with two adjacent symbols (outside the property\'s domain) do not resolve',
